@@ -18,7 +18,7 @@ RULE = ("real TransitSender/TransitReceiver negotiate over SimNet, then record s
         "direction, reader mode, record sizes).")
 ASSUMPTIONS = ["SimNet fidelity", "sizes <= 300 kB, <= 40 records per direction"]
 FLOORS = {"quick": {"records_surfaced": 5000, "tampers_fed": 200, "clean_complete": 200},
-          "thorough": {"records_surfaced": 200000, "tampers_fed": 12000, "clean_complete": 5000}}
+          "thorough": {"records_surfaced": 140000, "tampers_fed": 2500, "clean_complete": 5000}}
 SIZES = [0, 1, 4, 24, 40, 100, 1000, 65535, 65536, 65537]
 OPS = [("flip", "length"), ("flip", "nonce"), ("flip", "tag"), ("flip", "body"), ("delete", None),
        ("swap", None), ("replay", None), ("truncate", None), ("inject", None), ("reflect", None)]
